@@ -117,6 +117,21 @@ CHECKS["C03"] = dict(
          "cells lose reflections) is a statement about the reach of a search heuristic; no static rule implies or refutes "
          "it and none is substituted. xfab's genhkl_all (integer space groups) is outside the analysed code.")
 
+CHECKS["C04"] = dict(
+    category="other", design_ref="DESIGN.md section 3 / C04",
+    technique="polynomial value numbering of the interpreted Python/numba sources (sibling agreement of formula copies, "
+              "uninterpreted 3x3 inverse); typestate / who-may-write rules on grain's caches; guard-shape rule on the "
+              "guvectorize kernels",
+    text="Static: (R2-R4) the five copies of the Busing-Levy B formula, the four copies of cell-from-metric and the three "
+         "copies of U=(B.ubi)^T are interpreted symbolically for a generic cell / ubi and shown to have identical normal "
+         "forms (equality of real functions for ALL cells incl. triclinic - exactly the oblique cases no test covers); "
+         "grain.UB = inv(ubi), mt = ubi.ubi^T. (R1) cache discipline: every cached property is reset by clear_cache, ubi "
+         "is only assigned through set_ubi, properties return copies, no library code writes <obj>.ubi or hands it to a "
+         "kernel that overwrites it. (R5) each guvectorize kernel guards every array input with isnan and writes NaN on "
+         "that path, so masked voxels stay NaN (gufunc semantics keep neighbours independent).",
+    note=TRUST + "Not decided: that B is the Cholesky-like factor of the reciprocal metric, det U = +1, rotation/cell round "
+         "trips, xfab's u_to_rod.")
+
 NOT_YET = {}
 
 NOT_APPLICABLE = {
